@@ -68,7 +68,7 @@ var respKinds = map[string]string{
 type exch struct{ req, hv, resp string }
 
 type spec struct {
-	auth  string // off none wrong right
+	auth  string // off none wrong right nousers nousersCred
 	pipe  bool
 	exchs []exch
 }
@@ -198,11 +198,14 @@ func scenario(param string) vsched.Scenario {
 		if sp.auth != "off" {
 			users = map[string]string{base64.StdEncoding.EncodeToString([]byte("u:pw")): "u"}
 		}
+		if strings.HasPrefix(sp.auth, "nousers") {
+			users = map[string]string{} // authentication enabled, nobody may pass (non-nil empty map, as NewProxyServer builds for enableBasicAuth without users)
+		}
 		authHdr := ""
 		switch sp.auth {
 		case "wrong":
 			authHdr = "Proxy-Authorization: Basic " + base64.StdEncoding.EncodeToString([]byte("u:bad")) + "\r\n"
-		case "right":
+		case "right", "nousersCred":
 			authHdr = "Proxy-Authorization: Basic " + base64.StdEncoding.EncodeToString([]byte("u:pw")) + "\r\n"
 		}
 		raw := func(e exch) string {
@@ -521,7 +524,7 @@ func family(c *harness.Check) []string {
 		}
 	}
 	// auth
-	for _, a := range []string{"none", "wrong", "right"} {
+	for _, a := range []string{"none", "wrong", "right", "nousers", "nousersCred"} {
 		add(spec{a, true, []exch{{"GET", "h1", "S200CL"}}})
 		add(spec{a, true, []exch{{"POSTCL", "h0", "S200CL"}, {"GET", "h1", "S204"}}})
 	}
